@@ -15,7 +15,7 @@ CLAIMS = {
    note=PNET + '; HashSet<IpAddr>/HashSet<MacAddr> obey the vstd key model (assumed)'),
  'C03': dict(
    text='Mirror postconditions at each layer (Ethernet src/dst/type, IP src/dst/protocol incl. the ND target substitution, TCP/UDP ports incl. the STUN change-port exception) proved per function and carried to the frame level; at most one reply by the Option return type.',
-   note='the STUN exception is stated through the opaque predicate is_stun_change_port whose definition belongs to the (not yet verified) STUN responder contract; ' + PNET),
+   note='the STUN exception is the predicate is_stun_change_port (TLV walk, spec/app.rs), proved for stun::repl; the other responders are still assumed to leave the client record unchanged; ' + PNET),
  'C04': dict(
    text='IPv4 version/IHL/total length/DF/fragment offset/TTL, IPv6 version/payload length/hop limit (255 for NA), UDP length, TCP data offset and window proved as postconditions; every checksum field is proved to hold the result of pnet\'s checksum routine over the FINAL bytes and the reply\'s own pseudo-header (incl. the set_length-after-checksum order in ipv4.rs and the zero->0xFFFF rule for UDP/IPv6).',
    note='the arithmetic of the RFC 1071 sum itself is pnet\'s (uninterpreted inet_ck_raw; commutativity over address blocks assumed); ' + PNET),
@@ -39,7 +39,10 @@ CLAIMS = {
    note='the product explorer (tools/ground.py, Python) is in the trusted base; lazy_static initialise-once semantics assumed (R3); the 8 known discrepancy classes (wildcard shadowing) are known findings, any other class is a violation; "answered by that protocol\'s responder" composes with responder contracts that are still assumed (trusted stubs listed in the evidence); segmentation lemma scan(a++b) not yet proved'),
  'C12': dict(
    text='Per-protocol clauses proved so far: ARP op != 1, ICMP type != 8, ICMPv6 type not in {128,135} or code != 0, TCP flags == SYN|ACK or RST or bare ACK => no reply (iff postconditions of the responders).',
-   note='PARTIAL: DNS QR=1, STUN class, SMB reply flag, RPC reply and the reflection-chain bound are not yet under contract'),
+   note='STUN class != Request => no STUN response is proved (stun::repl iff clause); PARTIAL: DNS QR=1, SMB reply flag, RPC reply and the reflection-chain bound are not yet under contract'),
+ 'C15': dict(
+   text='stun::repl is proved to answer iff the payload is at least 20 + declared length bytes long, class bits == Request and method == Binding (decoded per RFC 5389 figure 3, all twelve method bits), and then with exactly stun_response_spec: type 0x0101, length = 4 + attribute length, the request\'s 16 id bytes, one MAPPED-ADDRESS (family 1|2, observed source port and address). Attribute parsing (TryFrom, get_attributes loop) is proved total and in-bounds for every TLV layout; the change-port effect is proved equal to the TLV-walk predicate stun_change_port_req and applied exactly once (port + 1 mod 2^16).',
+   note='to_be_bytes/byteorder::read_u128 inverse through the uninterpreted be_bytes16; u8->u8 try_into identity assumed (std reflexive From); identification of STUN payloads is the dispatcher\'s part (C10, with its known findings)'),
  'C18': dict(
    text='ssh_parse is proved (loop invariant, lexicographic termination measure for the re-read in state LF) to compute exactly the reference automaton ssh_run written from RFC 4253 4.2; ssh::repl answers iff that automaton ends in EOB and then with exactly "SSH-2.0-1\\r\\n". Lemmas over ssh_run: every string "SSH-" (digit|.)* "-" software [SP comment] CR LF (software without SP/CR, comment without CR) is accepted; strings without a CR LF pair or not starting "SSH-" are never accepted; run(a++b) = run(run(a), b). ghost::repl is proved to return "Gh0st" ++ le32(total length) ++ le32(1) ++ zlib([0]) with the declared total equal to the frame length.',
    note='gray zone left unconstrained (empty software, lone CR inside software/comment, which the code tolerates); that the leading bytes are SSH-2.0/SSH-1.99 is the dispatcher\'s part (C10); flate2 is an assumed contract (output inflates to the input; length bound); byte2str (log rendering) trusted'),
